@@ -26,7 +26,7 @@ class NmeaParser(object):
         self._reset()
 
     def restart(self):
-        self.state = __class__.State.INIT
+        self.state = __class__.State.WAIT_SYNC
 
     def process(self, data):
         for d in data:
